@@ -55,9 +55,16 @@ def strategy(tier):
     POSF = st.one_of(st.sampled_from([0, 0, 1, 2, 0.5, 0.1, 3, 10]), st.floats(min_value=0, max_value=100, allow_nan=False))
     VAL = st.one_of(st.integers(-20, 20), st.sampled_from([0.5, 1.5, 2.5, 10.0, 100.0]), st.floats(min_value=-100, max_value=100, allow_nan=False))
 
+    info = [n for n in ("bit", "byte", "shannon", "nibble") if n in c.units]
+    INFO_T = st.builds(lambda p, u: [[p, u, 1]], st.sampled_from([""] + c.prefixes), st.sampled_from(info))
+
     @st.composite
     def qlist(draw):
-        A, B, Cu = draw(TRI)
+        if draw(convgen.INT10) < 2:
+            # information units under SI and IEC prefixes (mixed prefix bases on one base unit)
+            A, B, Cu = draw(INFO_T), draw(INFO_T), draw(INFO_T)
+        else:
+            A, B, Cu = draw(TRI)
         units = [A, B, Cu]
         n = draw(st.integers(2, 5))
         items = []
